@@ -2,9 +2,4 @@ package main
 
 import "verifharness/internal/hx"
 
-func execRec(string) string          { return "out=badcase" }
-func execFrames(string) string       { return "out=badcase" }
-func execLive(string) string         { return "out=badcase" }
-func genRec(hx.Opts, func(string))    {}
-func genFrames(hx.Opts, func(string)) {}
-func genLive(hx.Opts, func(string))   {}
+func genFramesD(hx.Opts, func(string), *hx.Rand) {}
